@@ -40,6 +40,28 @@ def dump(exe):
     return tables, insts
 
 
+def encoding_ids(repo):
+    """EncodingId enum of x86instdb_p.h of the working tree: name (without the kEncoding prefix) -> value."""
+    hdr = open(os.path.join(repo, "asmjit", "x86", "x86instdb_p.h")).read()
+    m = re.search(r"enum EncodingId[^{]*\{(.*?)\n\s*kEncodingCount", hdr, re.S)
+    if not m:
+        return {}
+    body = re.sub(r"//[^\n]*", "", m.group(1))
+    names = [x.strip().split("=")[0].strip() for x in body.split(",") if x.strip()]
+    return {n.replace("kEncoding", "", 1): i for i, n in enumerate(names)}
+
+
+def class_list(fn, enc):
+    """A corpus list of encoding classes BY NAME, mapped to the ids of the working tree's enum; unknown names are returned too."""
+    ids, unknown = [], []
+    for n in read_list(fn):
+        if n in enc:
+            ids.append(enc[n])
+        else:
+            unknown.append(n)
+    return sorted(ids), unknown
+
+
 def handler_literals(repo):
     """The opcode literals hard-coded in the handlers of x86assembler.cpp whose instruction-table words are empty (mov, movabs, pushw)
     or incomplete (register forms of fld/fst/fstp), read from the source text.  Returns dict name -> list; {} entries mean the
@@ -51,17 +73,29 @@ def handler_literals(repo):
         j = src.find("case InstDB::kEncoding%s:" % end, i + 1)
         return src[i:j] if 0 <= i < j else ""
 
-    def lits(text):
+    def lits(text, deltas=True):
         out = set()
         for line in text.split("\n"):
             code = line.split("//")[0]
-            if re.search(r"\bopcode\s*(\+?=|\.add\()", code) is None or "opcode.add_" in code:
+            if not deltas and re.search(r"\bopcode\s*[-+]=", code):
                 continue
-            mp = 1 if "k000F00" in code else 0
+            if re.search(r"\bopcode\s*([-+|]?=|\.add\()", code) is None or "opcode.add_" in code:
+                continue
+            mp = 1 if re.search(r"k[0-9A-F]{2}0F00", code) else 0
             for h in re.findall(r"\b0x([0-9A-Fa-f]{2})u?\b", code):
                 out.add((mp, int(h, 16)))
         return sorted(out)
-    res = {"mov": lits(block("X86Mov", "X86Movabs")), "movabs": lits(block("X86Movabs", "X86MovsxMovzx")),
+    def cblock(name):
+        """the handler block of one encoding class: from its case label to the first case label after a `break;`"""
+        i = src.find("case InstDB::kEncoding%s:" % name)
+        if i < 0:
+            return ""
+        j = src.find("break;", i)
+        k = src.find("case InstDB::kEncoding", j if j > 0 else i + 1)
+        return src[i:k] if k > i else ""
+    res_cls = {n: lits(cblock(n), deltas=False) for n in ("X86Call", "X86Imul", "X86Jmp", "X86M_Nop", "X86Push", "X86Pop", "X86Test", "X86Xchg", "ExtMovq", "VexMri_Vpextrw")}
+    res = {"classes": res_cls, "arith": lits(block("X86Arith", "X86Bswap")), "rot": lits(block("X86Rot", "X86Set")),
+           "mov": lits(block("X86Mov", "X86Movabs")), "movabs": lits(block("X86Movabs", "X86MovsxMovzx")),
            "pushw": [(1 if "kPP_66" in l else 0, int(h, 16)) for l in block("X86Pushw", "X86Push").split("\n")
                      for h in re.findall(r"opcode\s*=\s*0x([0-9A-Fa-f]{2})u?\b", l.split("//")[0])],
            "fldfst": [(n.lower(), int(a, 16), int(b2, 16)) for n, a, b2 in re.findall(
@@ -82,11 +116,13 @@ def coq_text(tables, insts, names, rows):
             byname.setdefault(r["name"], []).append(r["id"])
     cd_exc = [n for n in read_list("C01_cd_exceptions.txt") if n in nid]
     op_exc = [n for n in read_list("C01_opcode_exceptions.txt") if n in nid]
-    verb = [int(x) for x in read_list("C01_verbatim_classes.txt")]
-    conv = [int(x) for x in read_list("C01_converse_classes.txt")]
+    enc = encoding_ids(vlib.REPO)
+    verb, unk_verb = class_list("C01_verbatim_classes.txt", enc)
+    conv, unk_conv = class_list("C01_converse_classes.txt", enc)
     cov_exc = [n for n in read_list("C01_cover_exceptions.txt") if n in nid]
     fpu_exc = [n for n in read_list("C01_fpu_exceptions.txt") if n in nid]
-    s66 = [int(x) for x in read_list("C01_size66_classes.txt")]
+    s66, unk_s66 = class_list("C01_size66_classes.txt", enc)
+    szb, unk_szb = class_list("C01_sizebit_classes.txt", enc)
     rt = tables["reg_types"]
     o = []
     o.append("(* GENERATED by tools/c01_tables.py from harness/c01_dump.cpp run on /repo's working tree. Do not edit.\n"
@@ -103,7 +139,7 @@ def coq_text(tables, insts, names, rows):
     o.append(";\n".join("  (mkIE %d %d %d %d %d %d %d %d, [%s])" % (i["id"], nid[i["name"]], i["enc"], i["main"], i["alt"], i["flags"], i["aflags"], i["bcst"],
                                                                   "; ".join("r%d" % x for x in sorted(byname.get(i["name"], [])))) for i in known))
     o.append("].\n")
-    o.append("Lemma grouping_is_ok : grouping_ok db_rows inst_table = true.\nProof. vm_compute. reflexivity. Qed.\n")
+    o.append("Lemma grouping_is_ok : grouping_ok db_rows inst_table = true.\nProof. vm_cast_no_check (eq_refl true). Qed.\n")
     o.append("(* reviewed exceptions (each one is a recorded finding, corpus/C01_cd_exceptions.txt / C01_opcode_exceptions.txt) *)")
     o.append("Definition cd_exceptions : list Z := %s." % zl([nid[n] for n in cd_exc]))
     o.append("Definition opcode_exceptions : list Z := %s." % zl([nid[n] for n in op_exc]))
@@ -111,6 +147,7 @@ def coq_text(tables, insts, names, rows):
     o.append("Definition verbatim_classes : list Z := %s.\n" % zl(verb))
     o.append("Definition converse_classes : list Z := %s." % zl(conv))
     o.append("Definition size66_classes : list Z := %s." % zl(s66))
+    o.append("Definition sizebit_classes : list Z := %s." % zl(szb))
     o.append("Definition cover_exceptions : list Z := %s." % zl([nid[n] for n in cov_exc]))
     o.append("Definition fpu_exceptions : list Z := %s.\n" % zl([nid[n] for n in fpu_exc]))
     o.append("(* the field positions of the opcode word the extractors of X86TablesSpec.v assume *)")
@@ -118,25 +155,46 @@ def coq_text(tables, insts, names, rows):
     o.append("Lemma static_tables_ok :\n  seg_table_ok t_segment_prefix_table && pp_table_ok t_opcode_pp_table && mm_table_ok t_opcode_mm_table &&\n"
              "  vex_prefix_ok t_vex_prefix_table && ll_by_size_ok t_ll_by_size_div_16_table && ll_by_reg_type_ok t_ll_by_reg_type_table t_vec256 (rt_v512 t_reg_types) &&\n"
              "  cdisp8_table_ok t_cdisp8_shl_table && mod16_base_ok t_mod16_base_table && mod16_base_index_ok t_mod16_base_index_table &&\n"
-             "  mem_info_ok t_reg_types t_mem_info_table = true.\nProof. vm_compute. reflexivity. Qed.\n")
-    o.append("Lemma cd_agree_ok :\n  forallb (fun p => zmem (ie_name (fst p)) cd_exceptions || cd_inst_agrees (snd p) (fst p)) inst_table = true.\nProof. vm_compute. reflexivity. Qed.\n")
-    o.append("Lemma opcode_agree_ok :\n  forallb (fun p => negb (zmem (ie_enc (fst p)) verbatim_classes) || zmem (ie_name (fst p)) opcode_exceptions || opcode_inst_agrees (snd p) (fst p)) inst_table = true.\nProof. vm_compute. reflexivity. Qed.\n")
-    o.append("Lemma opcode_cover_ok :\n  forallb (fun p => negb (zmem (ie_enc (fst p)) converse_classes) || zmem (ie_name (fst p)) cover_exceptions || opcode_inst_covers (snd p) (fst p)) inst_table = true.\nProof. vm_compute. reflexivity. Qed.\n")
-    o.append("Lemma size66_agree_ok :\n  forallb (fun p => negb (zmem (ie_enc (fst p)) size66_classes) || size66_inst_agrees (snd p) (fst p)) inst_table = true.\nProof. vm_compute. reflexivity. Qed.\n")
-    o.append("Lemma fpu_op_agree_ok :\n  forallb (fun p => negb (ie_enc (fst p) =? 66) || zmem (ie_name (fst p)) fpu_exceptions || fpu_op_agrees (snd p) (fst p)) inst_table = true.\nProof. vm_compute. reflexivity. Qed.\n")
+             "  mem_info_ok t_reg_types t_mem_info_table = true.\nProof. vm_cast_no_check (eq_refl true). Qed.\n")
+    o.append("Lemma cd_agree_ok :\n  forallb (fun p => zmem (ie_name (fst p)) cd_exceptions || cd_inst_agrees (snd p) (fst p)) inst_table = true.\nProof. vm_cast_no_check (eq_refl true). Qed.\n")
+    o.append("Lemma opcode_agree_ok :\n  forallb (fun p => negb (zmem (ie_enc (fst p)) verbatim_classes) || zmem (ie_name (fst p)) opcode_exceptions || opcode_inst_agrees (snd p) (fst p)) inst_table = true.\nProof. vm_cast_no_check (eq_refl true). Qed.\n")
+    o.append("Lemma opcode_cover_ok :\n  forallb (fun p => negb (zmem (ie_enc (fst p)) converse_classes) || zmem (ie_name (fst p)) cover_exceptions || opcode_inst_covers (snd p) (fst p)) inst_table = true.\nProof. vm_cast_no_check (eq_refl true). Qed.\n")
+    o.append("Lemma size66_agree_ok :\n  forallb (fun p => negb (zmem (ie_enc (fst p)) size66_classes) || size66_inst_agrees (snd p) (fst p)) inst_table = true.\nProof. vm_cast_no_check (eq_refl true). Qed.\n")
+    o.append("Lemma sizebit_agree_ok :\n  forallb (fun p => negb (zmem (ie_enc (fst p)) sizebit_classes) || sizebit_inst_agrees (snd p) (fst p)) inst_table = true.\nProof. vm_cast_no_check (eq_refl true). Qed.\n")
+    o.append("Lemma fpu_op_agree_ok :\n  forallb (fun p => negb (ie_enc (fst p) =? 66) || zmem (ie_name (fst p)) fpu_exceptions || fpu_op_agrees (snd p) (fst p)) inst_table = true.\nProof. vm_cast_no_check (eq_refl true). Qed.\n")
     hl = handler_literals(vlib.REPO)
     o.append("(* opcode literals of the handlers of x86assembler.cpp (mov, movabs, pushw; register forms of fld/fst/fstp), read from the source text *)")
     o.append("Definition hl_fldfst : list (Z * Z * Z) := [%s]." % "; ".join("(%d, %d, %d)" % (nid[n], a, b) for n, a, b in hl["fldfst"] if n in nid))
+    for k in ("arith", "rot"):
+        o.append("Definition hl_%s : list (Z * Z) := [%s]." % (k, "; ".join("(%d, %d)" % t for t in hl[k])))
+    o.append("(* X86Arith / X86Rot: derived forms (X86TablesSpec.arith_row_ok / rot_row_ok); the literals 0x80 and 0x10 the specification assumes are in the handler text *)")
+    o.append("Lemma arith_rot_agree_ok :\n  forallb (fun p => negb (ie_enc (fst p) =? 25) || derived_inst_agrees arith_row_ok (snd p) (fst p)) inst_table &&\n"
+             "  forallb (fun p => negb (ie_enc (fst p) =? 55) || derived_inst_agrees rot_row_ok (snd p) (fst p)) inst_table &&\n"
+             "  existsb (fun l => (fst l =? 0) && (snd l =? 128)) hl_arith && existsb (fun l => (fst l =? 0) && (snd l =? 16)) hl_rot = true.\nProof. vm_cast_no_check (eq_refl true). Qed.\n")
+    sreg = lambda t: sorted(set((1 if ((w >> 8) & 31) == 1 else 0, w & 255) for w in tables.get(t, []) if w))
+    cl = dict(hl["classes"])
+    cl["X86Push"] = sorted(set(cl.get("X86Push", []) + sreg("opcode_push_sreg_table")))
+    cl["X86Pop"] = sorted(set(cl.get("X86Pop", []) + sreg("opcode_pop_sreg_table")))
+    o.append("(* further legacy classes: opcode literals of the handler block (and the segment-register push / pop tables), by class id *)")
+    o.append("Definition hl_classes : list (Z * list (Z * Z)) := [%s]." % "; ".join(
+        "(%d, [%s])" % (enc[n], "; ".join("(%d, %d)" % t for t in v)) for n, v in sorted(cl.items()) if n in enc))
+    o.append("Lemma class_lits_ok : forallb (fun cl => class_lits_agree inst_table (fst cl) (snd cl)) hl_classes && (Z.of_nat (length hl_classes) =? %d) = true.\nProof. vm_cast_no_check (eq_refl true). Qed.\n" % len(cl))
     for k in ("mov", "movabs", "pushw"):
         o.append("Definition hl_%s : list (Z * Z) := [%s]." % (k, "; ".join("(%d, %d)" % t for t in hl[k])))
         o.append("Definition id_%s : Z := %d." % (k, nid.get(k, -1)))
-    o.append("Lemma fpu_derived_agree_ok :\n  forallb (fun p => negb (zmem (ie_enc (fst p)) fpu_derived_classes) || zmem (ie_name (fst p)) fpu_exceptions || fpu_derived_agrees hl_fldfst (snd p) (fst p)) inst_table = true.\nProof. vm_compute. reflexivity. Qed.\n")
+    o.append("Lemma fpu_derived_agree_ok :\n  forallb (fun p => negb (zmem (ie_enc (fst p)) fpu_derived_classes) || zmem (ie_name (fst p)) fpu_exceptions || fpu_derived_agrees hl_fldfst (snd p) (fst p)) inst_table = true.\nProof. vm_cast_no_check (eq_refl true). Qed.\n")
     o.append("Lemma handler_lits_ok :\n  inst_has inst_table id_mov (handler_lits_agree id_mov hl_mov) && inst_has inst_table id_movabs (handler_lits_agree id_movabs hl_movabs) &&\n"
-             "  inst_has inst_table id_pushw (pushw_lits_agree id_pushw hl_pushw) && (Z.of_nat (length hl_fldfst) =? 3) = true.\nProof. vm_compute. reflexivity. Qed.\n")
+             "  inst_has inst_table id_pushw (pushw_lits_agree id_pushw hl_pushw) && (Z.of_nat (length hl_fldfst) =? 3) = true.\nProof. vm_cast_no_check (eq_refl true). Qed.\n")
+    key = ("X86Arith", "X86Rot", "FpuOp", "FpuArith", "FpuCom", "FpuFldFst", "FpuM", "FpuR", "FpuRDef", "FpuStsw")
+    o.append("(* the EncodingId enum of x86instdb_p.h of the working tree: the classes that X86TablesSpec.v names by number have these numbers, and every class name of the corpus lists exists *)")
+    o.append("Definition enc_ids_of_tree : list Z := %s.  (* %s *)" % (zl([enc.get(k, -1) for k in key]), " ".join(key)))
+    o.append("Definition unknown_class_names : Z := %d." % len(unk_verb + unk_conv + unk_s66 + unk_szb))
+    o.append("Lemma class_ids_ok : enc_ids_of_tree = [25; 55; 66; 67; 68; 69; 70; 71; 72; 73] /\\ unknown_class_names = 0.\nProof. vm_compute. split; reflexivity. Qed.\n")
     o.append("Definition inst_count : Z := %d.\nLemma inst_count_ok : Z.of_nat (length inst_table) = inst_count.\nProof. vm_compute. reflexivity. Qed." % len(known))
     return "\n".join(o) + "\n", {"inst_ids": len(insts), "inst_ids_with_db_mnemonic": len(known),
                                  "mnemonics_not_in_db": sorted(i["name"] for i in insts if i["name"] not in nid)[:80],
-                                 "cd_exceptions": cd_exc, "opcode_exceptions": op_exc, "verbatim_classes": verb, "converse_classes": conv, "cover_exceptions": cov_exc, "fpu_exceptions": fpu_exc, "size66_classes": s66, "handler_literals": {k: len(v) for k, v in hl.items()},
+                                 "cd_exceptions": cd_exc, "opcode_exceptions": op_exc, "verbatim_classes": verb, "converse_classes": conv, "cover_exceptions": cov_exc, "fpu_exceptions": fpu_exc, "size66_classes": s66, "sizebit_classes": szb, "unknown_class_names": unk_verb + unk_conv + unk_s66 + unk_szb,
+                                 "class_ids": {k: enc.get(k, -1) for k in ("X86Arith", "X86Rot", "FpuOp", "FpuArith", "FpuCom", "FpuFldFst", "FpuM", "FpuR", "FpuRDef", "FpuStsw")}, "handler_literals": {k: len(v) for k, v in hl.items()},
                                  "inst_ids_in_converse_classes": len([i for i in known if i["enc"] in conv]),
                                  "inst_ids_in_verbatim_classes": len([i for i in known if i["enc"] in verb])}
 
